@@ -56,7 +56,7 @@ def gen_weights(rnd, n, kind):
             w = [round(rnd.uniform(-0.8, 2.0), 3) for _ in range(n)]
             if not any(x < 0 for x in w):
                 w[rnd.randrange(n)] = -0.4
-        if abs(sum(w)) > 0.25 * sum(abs(x) for x in w):
+        if sum(w) > 0.25 * sum(abs(x) for x in w):
             return w
 
 
@@ -178,10 +178,10 @@ def ones_like_n(n):
 
 # ----------------------------------------------------------------------------- goals
 
-def bound_frag(name, term, val, local, names, rel=2e-14, absd=0.0):
+def bound_frag(name, term, val, local, names, rel=1e-12, absd=0.0):
     """tactic fragment: name := term (already present in the goal), certified enclosure, then forget the body"""
     dlt = abs(val) * rel + absd
-    return ("set (%s := %s); assert (H%s : %s <= %s <= %s) by (unfold %s; cbv [%s]; split; %s); clearbody %s; "
+    return ("set (%s := %s); assert (H%s : %s <= %s <= %s) by (unfold %s; cbv [%s]; %s); clearbody %s; "
             % (name, term, name, Rq(val - dlt), name, Rq(val + dlt), local, names + " " + LISTF, IP, name))
 
 
@@ -226,7 +226,12 @@ def capture_part(model_name, fcn, amp, raw, x):
         p.eg = arr(fcn.mcdata.get("eff_value", np.ones(m))); p.bm = arr(fcn.mcdata.get("bg_value", np.ones(m)))
         p.errv = arr(fcn.data.get("err_value", np.ones(n)))
     p.call = float(fcn.get_nll(x))
-    p.gradval = float(fcn.get_nll_grad(x)[0])
+    p.grad_error = None
+    try:
+        p.gradval = float(fcn.get_nll_grad(x)[0])
+    except Exception as e:
+        p.gradval = None
+        p.grad_error = "%s: %s" % (type(e).__name__, str(e)[:300])
     return p
 
 
@@ -249,7 +254,7 @@ def doc_value(model_name, p, fb=None):
     return r
 
 
-def part_goals(s, gi, pi, p, batch, fb, tag):
+def _part_goals(s, gi, pi, p, batch, fb, tag):
     """goals W, V, C, G for one FCN at one point; returns list of (cid, stmt, tac, meta)"""
     out = []
     m = s.model
@@ -261,16 +266,16 @@ def part_goals(s, gi, pi, p, batch, fb, tag):
     a1 = math.fsum(raw) / math.fsum(x * x for x in raw)
     bgexpr = Rlist(p.bgw) if (p.bgw is not None and s.bgkind != "noweight") else (
         "(bg_const_weights %s %d)" % (Rq(s.wb), p.bgn) if s.bgkind == "noweight" else "[]")
-    stmt = lets(ws=Rlist(p.ws), bgw=bgexpr) + "close_list %s (fcn_weight ws bgw) %s" % (Rq(1e-12 * wmax), Rlist(W))
+    stmt = lets(ws=Rlist(p.ws), bgw=bgexpr) + "(sqdist (fcn_weight ws bgw) %s <= %s)%%R" % (Rlist(W), Rq((2e-11 * wmax) ** 2))
     tac = ("intros ws bgw; cbv [fcn_weight scale_w]; "
            + bound_frag("a1", "alpha (blend ws bgw)", a1, "a1, ws, bgw", "alpha sqs blend bg_const_weights List.repeat app")
-           + "unfold ws, bgw; cbv [close_list blend bg_const_weights List.repeat app %s]; repeat split; %s" % (LISTF, IP))
+           + "unfold ws, bgw; cbv [sqdist blend bg_const_weights List.repeat app %s]; %s" % (LISTF, IP))
     out.append((base + "_W", stmt, tac, {"layer": "weights", "site": "Model.get_weight_data / FCN.__init__"}))
     # ---- layer V: FCN.mc_weight = v / sum v
     sv = math.fsum(p.v)
-    stmt = lets(v=Rlist(p.v)) + "close_list %s (mc_norm v) %s" % (Rq(1e-12 * max(V)), Rlist(V))
+    stmt = lets(v=Rlist(p.v)) + "(sqdist (mc_norm v) %s <= %s)%%R" % (Rlist(V), Rq((2e-11 * max(V)) ** 2))
     tac = ("intros v; cbv [mc_norm]; " + bound_frag("sv", "rsum v", sv, "sv, v", "")
-           + "unfold v; cbv [close_list %s]; repeat split; %s" % (LISTF, IP))
+           + "unfold v; cbv [sqdist %s]; %s" % (LISTF, IP))
     out.append((base + "_V", stmt, tac, {"layer": "mc_weights", "site": "FCN.__init__ mc_weight"}))
     # ---- layers C (call) and G (value alongside the gradient; batch-independent by theorem C06_nll_batch_independent,
     #      so every batch size is tied to the same un-batched model term)
@@ -284,10 +289,7 @@ def part_goals(s, gi, pi, p, batch, fb, tag):
     def tol_of(y, terms):
         return 1e-10 * (abs(y) + terms)
 
-    def both(pre, fast, slow):
-        return pre + "first [ (" + fast + ") | (" + slow + ") ]"
-
-    HF = "assert (Hf : map clip_log f = map ln f) by (apply map_clip_log_hi; unfold f; repeat constructor; cbv [eps_clip]; %s); rewrite Hf; " % IP
+    CLIP = "clip_log_abs rmax rmin eps_clip"
     a2frag = bound_frag("a2", "alpha W", aW, "a2, W", "alpha sqs", rel=0, absd=1e-12)
     L4 = lets(W=Rlist(W), f=Rlist(f), V=Rlist(V), g=Rlist(g))
     if m in ("default", "extended", "cached_int", "cached_amp"):
@@ -295,13 +297,12 @@ def part_goals(s, gi, pi, p, batch, fb, tag):
         intf = I if m == "extended" else math.log(I)
         scale = float(np.sum(np.abs(np.array(W) * cl))) + abs(sw * intf)
         a3frag = bound_frag("a3", "alpha (rscale a2 W)", aW2, "a3, W", "alpha sqs", rel=0, absd=1e-10)
-        fast = HF + "unfold W, f, V, g; cbv [%s int_f]; %s" % (LISTF, IP)
-        slow = "unfold W, f, V, g; cbv [%s clip_log int_f eps_clip]; rclose" % LISTF
+        fin = "rewrite map_clip_log_abs; unfold W, f, V, g; cbv [%s %s int_f]; %s" % (LISTF, CLIP, IP)
         stmt = L4 + le("nll_call %s W f V g" % ext, p.call, tol_of(p.call, scale))
-        tac = both("intros W f V g; cbv [nll_call nll_base scale_w]; " + a2frag + a3frag, fast, slow)
+        tac = "intros W f V g; cbv [nll_call nll_base scale_w]; " + a2frag + a3frag + fin
         out.append((base + "_C", stmt, tac, {"layer": "call", "site": "Model.nll / BaseModel.nll"}))
         stmt = L4 + le("nll_gradval %s W f V g" % ext, p.gradval, tol_of(p.gradval, scale))
-        tac = both("intros W f V g; cbv [nll_gradval]; ", fast, slow)
+        tac = "intros W f V g; cbv [nll_gradval]; " + fin
         out.append((base + "_G", stmt, tac, {"layer": "gradval", "site": "nll_grad_batch (value)"}))
     elif m == "simple":
         scale = float(np.sum(np.abs(np.array(W) * np.log(f)))) + abs(sw * math.log(I))
@@ -311,12 +312,11 @@ def part_goals(s, gi, pi, p, batch, fb, tag):
             out.append((base + suffix, stmt, tac, {"layer": "call" if suffix == "_C" else "gradval", "site": site}))
     elif m == "simple_clip":
         scale = float(np.sum(np.abs(np.array(W) * cl))) + abs(sw * float(np_clip_log(I)))
-        nf = bound_frag("nrm", "rdot V g", I, "nrm, V, g", "")
-        fast = HF + "rewrite (clip_log_hi nrm) by (cbv [eps_clip]; %s); unfold W, f; cbv [%s]; %s" % (IP, LISTF, IP)
-        slow = "unfold W, f; cbv [%s clip_log eps_clip]; rclose" % LISTF
+        nf = ""
+        fin = "rewrite map_clip_log_abs, (clip_log_abs_eq (rdot V g)); unfold W, f, V, g; cbv [%s %s]; %s" % (LISTF, CLIP, IP)
         for suffix, y, site in (("_C", p.call, "BaseCustomModel.nll"), ("_G", p.gradval, "BaseCustomModel.nll_grad_batch (value)")):
             stmt = L4 + le("simple_clip_call W f V g", y, tol_of(y, scale))
-            tac = both("intros W f V g; cbv [simple_clip_call]; " + nf, fast, slow)
+            tac = "intros W f V g; cbv [simple_clip_call]; " + nf + fin
             out.append((base + suffix, stmt, tac, {"layer": "call" if suffix == "_C" else "gradval", "site": site}))
     else:  # cfit family
         e = p.errv if m == "simple_cfit" else p.e
@@ -328,7 +328,7 @@ def part_goals(s, gi, pi, p, batch, fb, tag):
         isf = bound_frag("isig", "rdot V (sig_of eg g)", isig, "isig, V, eg, g", "sig_of")
         ibf = bound_frag("ibg", "rdot V bm", ibg, "ibg, V, bm", "")
         fin = "unfold W, e, f, b; cbv [sig_of cfit_prob %s]; %s" % (LISTF, IP)
-        finclip = ("rewrite map_clip_log_hi by (unfold e, f, b; cbv [sig_of cfit_prob rzip]; repeat constructor; cbv [eps_clip]; %s); " % IP) + fin
+        finclip = ("rewrite map_clip_log_shortfall by (unfold e, f, b; cbv [shortfall rmax eps_clip sig_of cfit_prob %s]; %s); " % (LISTF, IP)) + fin
         intro = "intros W e f b V eg g bm; "
         if m in ("cfit", "cfit_cached"):
             stmt = L + le("cfit_call %s W e f b V eg g bm" % Rq(fb), p.call, tol_of(p.call, scale))
@@ -350,6 +350,13 @@ def part_goals(s, gi, pi, p, batch, fb, tag):
                 tac = intro + "cbv [simple_cfit_call cfit_probs]; " + isf + ibf + fin
                 out.append((base + suffix, stmt, tac, {"layer": "call" if suffix == "_C" else "gradval", "site": site}))
     return out
+
+
+def part_goals(s, gi, pi, p, batch, fb, tag):
+    if p.gradval is None:
+        q = Part(); q.__dict__.update(p.__dict__); q.gradval = 0.0
+        return [c for c in _part_goals(s, gi, pi, q, batch, fb, tag) if not c[0].endswith("_G")]
+    return _part_goals(s, gi, pi, p, batch, fb, tag)
 
 
 def gauss_expr(cs):
@@ -420,7 +427,17 @@ def run_scenario(ctx, rnd, s, npoints, all_batches):
                 cases += gl
                 ctx.evaluations += 2
                 dv = doc_value(s.model, p, fb)
-                records.append({"scenario": s.sid, "model": s.model, "group": gi, "batch": batch, "params": x,
+                if p.grad_error is not None:
+                    ragged = s.model == "cfit_extended" and "Shapes of all inputs must match" in p.grad_error
+                    ctx.fails.append(dict(layer="implementation", case="b%d_s%d_g%d_p%d_G" % (batch, s.sid, gi, pi),
+                                          detail="FCN.get_nll_grad raised %s [model=%s, batch=%d, N=%d]" % (p.grad_error, s.model, batch, len(p.W)),
+                                          site="ModelCfitExtended.nll_grad_batch" if ragged else "get_nll_grad(%s)" % s.model,
+                                          fingerprint="cfit_extended:ragged_batch_sw" if ragged else s.model + ":raise",
+                                          failing_input={"config": s.cfg, "batch": batch, "n_events": len(p.W), "params": x, "error": p.grad_error}))
+                extra = {}
+                if s.model in CFIT_LIKE:
+                    extra = {"eff_data": p.e, "bg_value_data": p.b, "eff_mc": p.eg, "bg_value_mc": p.bm, "fcn_weight": p.W, "fcn_mc_weight": p.V}
+                records.append({**extra, "scenario": s.sid, "model": s.model, "group": gi, "batch": batch, "params": x,
                                 "weights": p.ws, "bg_weights": p.bgw, "mc_weights": p.v, "density_data": p.f, "density_mc": p.g,
                                 "nll_call": p.call, "nll_gradval": p.gradval, "documented": float(dv), "bg_frac": fb,
                                 "clip": s.clip})
@@ -429,6 +446,8 @@ def run_scenario(ctx, rnd, s, npoints, all_batches):
             if bi > 0:
                 continue
             cs = [(float(cfg.vm.get(k)), float(mu), float(sg)) for k, (mu, sg) in s.gc.items()]
+            if any(p.gradval is None for p in parts):
+                continue
             tot_call = float(fcn(x)); tot_grad = float(fcn.nll_grad(x)[0])
             ctx.evaluations += 2
             site = "CombineFCN" if len(fcns) > 1 else "FCN"
@@ -454,6 +473,9 @@ def plan(ctx, rnd):
         for m in MODELS:
             for ngroup in ((1, 2) if quick else (1, 2, 3)):
                 gauss = (sid % 2 == 1)
+                if quick and ngroup == 2 and MODELS.index(m) % 2 == 1:
+                    sid += 1
+                    continue
                 sc.append((sid, m, ngroup, gauss, False)); sid += 1
         sc.append((sid, "default", 3, True, False)); sid += 1
         sc.append((sid, "default", 1, False, True)); sid += 1   # densities around the clip threshold
@@ -513,7 +535,7 @@ class Acc:
     """picklable stand-in for Ctx inside worker processes"""
     def __init__(self, d, tier):
         self.dir, self.tier = d, tier
-        self.dist, self.distinct, self.evaluations = {}, set(), 0
+        self.dist, self.distinct, self.evaluations, self.fails = {}, set(), 0, []
 
     def count(self, key, n=1):
         self.dist[key] = self.dist.get(key, 0) + n
@@ -526,6 +548,12 @@ def _worker(args):
     import time
     import bootstrap
     bootstrap.tf_quiet()
+    import tensorflow as tf
+    try:  # tiny tensors: one thread per worker process is fastest and keeps the machine usable
+        tf.config.threading.set_intra_op_parallelism_threads(1)
+        tf.config.threading.set_inter_op_parallelism_threads(1)
+    except RuntimeError:
+        pass
     sid, m, ngroup, gauss, clip = item
     acc = Acc(d, tier)
     srnd = random.Random(sseed)
@@ -535,11 +563,11 @@ def _worker(args):
             s = make_scenario(acc, srnd, sid, m, ngroup, gauss, clip)
             cs, rs = run_scenario(acc, srnd, s, 1 if tier == "quick" else 2, all_batches=(ngroup == 1 or tier != "quick"))
         return {"item": item, "cases": cs, "records": rs, "dist": acc.dist, "distinct": acc.distinct, "evaluations": acc.evaluations,
-                "error": None, "dt": time.time() - t0}
+                "error": None, "dt": time.time() - t0, "fails": acc.fails}
     except Exception:
         import traceback
         return {"item": item, "cases": [], "records": [], "dist": acc.dist, "distinct": acc.distinct, "evaluations": acc.evaluations,
-                "error": traceback.format_exc()[-1500:], "dt": time.time() - t0}
+                "error": traceback.format_exc()[-1500:], "dt": time.time() - t0, "fails": acc.fails}
 
 
 def run(ctx):
@@ -566,6 +594,8 @@ def run(ctx):
             ctx.count(k, v)
         ctx.distinct |= r["distinct"]
         ctx.evaluations += r["evaluations"]
+        for f in r["fails"]:
+            ctx.fail(f.pop("layer"), f.pop("case"), f.pop("detail"), **f)
         if r["error"]:
             ctx.fail("implementation", "s%d" % sid, "model %s raised: %s" % (m, r["error"]),
                      site="get_fcn(%s)" % m, fingerprint=m + ":raise", failing_input=None)
@@ -587,9 +617,20 @@ def run(ctx):
                 key = "nll_call" if meta["layer"] == "call" else "nll_gradval"
                 if abs(r[key] - r["documented"]) > 1e-8 * (abs(r["documented"]) + 1):
                     fi = dict(r, check="documented formula (independent NumPy) vs implementation", observable=key)
+            site, fp = meta["site"], "%s:%s" % (meta.get("model"), meta["layer"])
+            if r is not None and meta.get("model") == "cfit_cached" and meta["layer"] == "gradval":
+                # known shape of defect F11: efficiency missing in the signal normalisation integral
+                W_, V_ = np.array(r["fcn_weight"]), np.array(r["fcn_mc_weight"])
+                pr = ((1 - r["bg_frac"]) * np.array(r["eff_data"]) * np.array(r["density_data"]) / float(np.dot(V_, r["density_mc"]))
+                      + r["bg_frac"] * np.array(r["bg_value_data"]) / float(np.dot(V_, r["bg_value_mc"])))
+                alt = -float(np.sum(W_ * np.log(pr)))
+                if abs(alt - r["nll_gradval"]) <= 1e-9 * (abs(alt) + 1):
+                    site, fp = "Model_cfit_cached.nll_grad_batch", "cfit_cached:eff_missing_in_int_sig"
+                    if fi is not None:
+                        fi["explanation"] = "value equals the mixture with I_sig = sum V*amp (efficiency omitted): %r" % alt
             ctx.fail(meta["layer"], cid, "implementation value not within tolerance of the model (%s) [%s, model=%s, batch=%s]"
                      % (res[cid], meta["site"], meta.get("model"), meta.get("batch")),
-                     inp={k: v for k, v in meta.items()}, site=meta["site"], fingerprint="%s:%s" % (meta.get("model"), meta["layer"]),
+                     inp={k: v for k, v in meta.items()}, site=site, fingerprint=fp,
                      failing_input=fi)
     return common.finish(ctx, search=search, technique=TECHNIQUE, extra_assumptions=[
         "densities f_i = amp(x_i), g_j = amp(y_j) are the implementation's own outputs (amplitude layer: C01-C05); cached_int/cached_amp/cfit_cached are compared against amp() within the NLL tolerance",
